@@ -30,14 +30,15 @@ def trace_calls(fn):
     return out, calls
 
 
-def run_with_fault(fn, k):
-    """Run fn() raising InjectedFault at the k-th library call (k=None: no fault).
+def run_with_fault(fn, k, only=None):
+    """Run fn() raising InjectedFault at the k-th library call (k=None: no fault); `only`: count calls into files whose path
+    contains one of these substrings only.
     Returns (outcome, fired, total_calls_seen) with outcome = ('ok', value) | ('exc', exception)."""
     n = [0]
     fired = [False]
 
     def tr(frame, event, arg):
-        if event == "call" and "/rtflite/" in frame.f_code.co_filename:
+        if event == "call" and "/rtflite/" in frame.f_code.co_filename and (only is None or any(o in frame.f_code.co_filename for o in only)):
             n[0] += 1
             if k is not None and n[0] == k:
                 fired[0] = True
